@@ -142,7 +142,19 @@ func (ws *wsHandshakeHandler) done(err error) {
 var errWsNotUpgraded = errors.New("connection closed before it was upgraded to websocket")
 
 func (ws *wsHandshakeHandler) ServeHTTP(w http.ResponseWriter, r *http.Request) {
-	upgrader := websocket.Upgrader{}
+	upgrader := websocket.Upgrader{
+		// the refusal of a request that cannot be upgraded is written out before the failure is reported: the
+		// responder closes the connection as soon as it hears of it, and whether the peer gets this reply or a
+		// bare close must not depend on which of the two is faster
+		Error: func(w http.ResponseWriter, r *http.Request, status int, reason error) {
+			w.Header().Set("Sec-Websocket-Version", "13")
+			w.Header().Set("Connection", "close")
+			http.Error(w, http.StatusText(status), status)
+			if f, ok := w.(http.Flusher); ok {
+				f.Flush()
+			}
+		},
+	}
 	c, err := upgrader.Upgrade(w, r, nil)
 	if err != nil {
 		log.Errorf("failed to upgrade connection to ws: %v", err)
